@@ -178,11 +178,12 @@ func runC02(c *Cfg) {
 	// structure-sharing amplification (seeded change C02-b): a chain of structs each referring
 	// k times to the level below is a DAG of depth·k edges for the evaluator; a stage that walks
 	// it once per PATH instead of once per vertex costs k^depth.  The leaf is not concrete, so
-	// the exports that must expand the tree stop at the first incomplete value; depth is chosen
-	// so that the expanded tree (k^depth nodes) is still printable within the case budget on the
-	// unchanged tree, while a per-path walk with error accumulation is far beyond it.
+	// the programs carry the marker comment c02SharedMarker, which makes the pipeline skip the
+	// stages whose OUTPUT is the expanded tree (k^depth nodes: Final syntax, JSON, YAML, Walk);
+	// parse, compile, evaluate, Validate, Validate(Concrete) and the reference-preserving
+	// exports (All, Raw) remain, all of which are linear in the shared graph on the unchanged tree.
 	for i, src := range c02SharingPrograms() {
-		cases = append(cases, &c02Case{src: []byte(src), origin: fmt.Sprintf("sharing#%d", i), kind: "idiom", runs: 2})
+		cases = append(cases, &c02Case{src: []byte(src), origin: fmt.Sprintf("sharing#%d", i), kind: "sharing", runs: 2})
 	}
 	for i, src := range c02LiteralPrefixes() {
 		cases = append(cases, &c02Case{src: []byte(src), origin: fmt.Sprintf("literal-prefix#%d", i), kind: "literal-prefix", runs: 2})
@@ -271,6 +272,8 @@ func runC02(c *Cfg) {
 			switch cs.kind {
 			case "idiom":
 				cliSample = append(cliSample, cs)
+			case "sharing":
+				// pipeline only (the CLI commands print the expanded tree, which is k^depth nodes)
 			case "literal-prefix", "syntax-prefix":
 				fam["prefix"] = append(fam["prefix"], cs)
 			case "program":
@@ -953,11 +956,15 @@ func c02Report(c *Cfg, pool *c02Pool, failures []*c02Failure, cpuMs int) {
 	}
 }
 
+// c02SharedMarker (first line of a program) selects the pipeline without tree-expanding stages.
+const c02SharedMarker = "// c02:shared-dag"
+
 // c02SharingPrograms: small programs whose evaluated value is a heavily shared DAG.
 func c02SharingPrograms() []string {
 	var out []string
 	gen := func(depth, k int, leaf string, fields []string) string {
 		var b strings.Builder
+		b.WriteString(c02SharedMarker + "\n")
 		fmt.Fprintf(&b, "a0: %s\n", leaf)
 		for n := 1; n <= depth; n++ {
 			fmt.Fprintf(&b, "a%d: {", n)
@@ -972,10 +979,11 @@ func c02SharingPrograms() []string {
 		return b.String()
 	}
 	out = append(out,
-		gen(13, 2, `{x: int, y: "s"}`, []string{"l", "r"}),
-		gen(15, 2, `{x: int, y: "s"}`, []string{"l", "r"}),
-		gen(9, 3, `{x: string, y: 1}`, []string{"p", "q", "r"}),
-		gen(14, 2, `{x: >0, y: [1, 2]}`, []string{"first", "second"}),
+		gen(24, 2, `{x: int, y: "s"}`, []string{"l", "r"}),
+		gen(64, 2, `{x: int, y: "s"}`, []string{"l", "r"}),
+		gen(20, 3, `{x: string, y: 1}`, []string{"p", "q", "r"}),
+		gen(40, 2, `{x: >0, y: [1, 2]}`, []string{"first", "second"}),
+		gen(32, 2, `{x: 1, y: "s"}`, []string{"l", "r"}),
 	)
 	return out
 }
